@@ -118,6 +118,7 @@ class _Z3Reader:
         self.z3 = z3
         self.axioms = []
         self._seen = set()
+        self.numeric = set()  # source texts known to be numbers (they occur in arithmetic position in the stated guard)
 
     def real(self, n, depth=0):
         z3 = self.z3
@@ -131,6 +132,7 @@ class _Z3Reader:
             a, b = self.real(n.left, depth), self.real(n.right, depth)
             return a + b if isinstance(n.op, ast.Add) else a - b if isinstance(n.op, ast.Sub) else a * b
         txt = ast.unparse(n)
+        self.numeric.add(txt)
         v = z3.Real("⟦" + txt + "⟧")
         if txt.endswith(".norm()") and txt not in self._seen:
             self._seen.add(txt)
@@ -152,6 +154,13 @@ class _Z3Reader:
             for o, a, b in zip(n.ops, terms, terms[1:]):
                 cs.append({ast.Eq: a == b, ast.NotEq: a != b, ast.Lt: a < b, ast.LtE: a <= b, ast.Gt: a > b, ast.GtE: a >= b}[type(o)])
             return z3.And(*cs) if len(cs) > 1 else cs[0]
+        # truth value of a number: a norm used as a condition means "is not zero"
+        probe = n
+        depth = 0
+        while isinstance(probe, ast.Name) and probe.id in _ALIASES and depth < 6:
+            probe, depth = _ALIASES[probe.id], depth + 1
+        if ast.unparse(probe).endswith(".norm()") or ast.unparse(n) in self.numeric:
+            return self.real(n) != 0
         return z3.Bool("⟦" + ast.unparse(n) + "⟧?")
 
 
@@ -176,6 +185,7 @@ def _guard_obligation(path, guard_txt, var):
     """valid( tests on the way  =>  guard ) ?  -> (status, explanation)"""
     import z3
     rd = _Z3Reader()
+    goal = rd.boolean(ast.parse(guard_txt, mode="eval").body)  # first: its arithmetic atoms are then known to be numbers
     hyps = []
     for test, pol, block in path:
         names = {x.id for x in ast.walk(test) if isinstance(x, ast.Name)}
@@ -184,7 +194,6 @@ def _guard_obligation(path, guard_txt, var):
             continue  # stale: the branch re-assigns what the test spoke about (the specified target itself is written last)
         b = rd.boolean(test)
         hyps.append(b if pol else z3.Not(b))
-    goal = rd.boolean(ast.parse(guard_txt, mode="eval").body)
     s = z3.Solver()
     s.set("timeout", 5000)
     s.add(*rd.axioms)
